@@ -209,6 +209,8 @@ def run(tier: str) -> int:
     table.judge(chk, tier, "C01")
     from harness import link
     link.judge(chk, tier, "C01")
+    from harness import lineends
+    lineends.judge(chk, tier, "C01")
     for id_ in list(metas)[:: max(1, len(metas) // 4)][:4]:
         chk.sample({k: metas[id_][k] for k in ("fam", "toks", "src", "opts", "out")})
     chk.exhaustive = True
